@@ -130,7 +130,7 @@ static int spawned[MAXP];      /* fork happened */
 static int closed[MAXP];
 static uv_pipe_t* pipes_h[MAXP][MAXSLOT];
 static int gate_open[32];
-static int gate_of[MAXP], gate_due[32], killed_h[MAXP], stolen_h[MAXP];
+static int spawn_ok[MAXP], gate_of[MAXP], gate_due[32], killed_h[MAXP], stolen_h[MAXP];
 static uv_timer_t timers[32];
 static int ntimers;
 static int cur_spawn = -1;     /* child being spawned (for the fork wrapper) */
@@ -272,6 +272,7 @@ static void do_spawn(char* tok) {
   cur_spawn = h;
   r = uv_spawn(&loop, procs[h], &opt);
   cur_spawn = -1;
+  spawn_ok[h] = (r == 0);
   inj_sp = -1; inj_pipe = 0; inj_fork = 0;
   OUT("s%d:%d:%d ", h, r, uv_is_active((uv_handle_t*) procs[h]) ? 1 : 0);
   snapshot("Q", h);
@@ -309,7 +310,7 @@ static void run_case(char* line) {
   int hi = 39, i, fd, loop_ready = 0;
   int nullfd;
 
-  alarm(8);
+  alarm(6);
   resfd = fcntl(1, F_DUPFD_CLOEXEC, 250);
   for (fd = 3; fd < 1024; fd++) if (fd != resfd) close(fd);
   snprintf(w_dir, sizeof w_dir, "%s/w%d", g_dir, (int) getpid());
@@ -398,7 +399,7 @@ static void run_case(char* line) {
       for (;;) {
         int h, waiting = 0;
         for (h = 0; h < MAXP; h++)
-          if (spawned[h] && !closed[h] && !stolen_h[h] && procs[h] && uv_is_active((uv_handle_t*) procs[h]) &&
+          if (spawned[h] && spawn_ok[h] && !closed[h] && !stolen_h[h] && procs[h] && uv_is_active((uv_handle_t*) procs[h]) &&
               (gate_of[h] < 0 || gate_due[gate_of[h]] || killed_h[h]))
             waiting = 1;
         if (!waiting) break;
